@@ -26,7 +26,7 @@ ASSUMPTIONS = [
     "representability of numbers at settings.decimals and numeric equality after re-import are not decided",
     "identifier names and single-line descriptions without '#' (property precondition)",
 ]
-FLOORS = {"T4": 24, "T5": 18, "T6": 23, "T7": 7, "T8": 6, "T9": 50, "T10": 20, "T11": 1}
+FLOORS = {"T13": 3, "T4": 24, "T5": 18, "T6": 23, "T7": 7, "T8": 6, "T9": 50, "T10": 20, "T11": 1}
 
 KIND_BY_ANNOTATION = [("bool", "boolean"), ("float", "to_float"), ("SNorm", "snorm"), ("TNorm", "tnorm"),
                       ("Defuzzifier", "defuzzifier"), ("Activation", "activation"), ("str", "raw")]
@@ -62,6 +62,7 @@ def run(check: Check) -> None:
     registration(check)
     field_coverage(check)
     keywords(check)
+    line_syntax(check)
     if check.tier == "thorough":
         corpus(check)
     check.exhaustive_parts += ["writer/reader tables compared entry by entry"]
@@ -644,6 +645,42 @@ def keywords(check: Check) -> None:
 
     a, b = kws(rt), kws(rp)
     check.require(a == b == {"IF", "THEN", "WITH"}, "T11", "Rule/keywords", f"Rule.text writes {sorted(a)} and Rule.parse reads {sorted(b)}", loc(rt))
+
+
+def line_syntax(check: Check) -> None:
+    """T13: `key: value` lines - split at the first colon only, both parts stripped, `#` starts a comment; blocks are flushed at the end."""
+    p = check.program
+    fn = p.func("FllImporter.extract_key_value")
+    check.analysed(fn)
+    r = Resolver(p, fn)
+    parts = None
+    for n, c in r.cfg.all_calls():
+        t = r.term(c, n)
+        if t[0] == "call" and t[1][0] == "attr" and t[1][2] == "split" and t[2] and t[2][0] == ("const", ":"):
+            parts = t
+    kw = dict(parts[3]) if parts else {}
+    first_only = parts is not None and (kw.get("maxsplit") == ("const", 1) or (len(parts[2]) > 1 and parts[2][1] == ("const", 1)))
+    check.require(first_only, "T13", "FllImporter.extract_key_value/first-colon", "a line is split at its first colon only, so values (descriptions, rule text) may contain colons"
+                  if first_only else "the line is split at every colon: a description or term containing ':' is rejected or truncated on re-import", loc(fn))
+    # engine(): every block is processed, including the last one
+    fe = p.func("FllImporter.engine")
+    re_ = Resolver(p, fe)
+    cfg = re_.cfg
+    procs = [n for n, c in cfg.find_calls("._process")]
+    loops = [h for h in cfg.loop_heads() if h.kind == "for"]
+    inside = [n for n in procs if loops and n in cfg.loop_body(loops[0])]
+    after = [n for n in procs if loops and n not in cfg.lexical_body(loops[0]) and cfg.dominates(loops[0], n)]
+    from .common import early_exits
+
+    ok = bool(inside) and bool(after) and not (early_exits(cfg, loops[0]) if loops else True)
+    check.require(ok, "T13", "FllImporter.engine/flush", "each component block is processed when the next header arrives, and the last block after the loop" if ok else
+                  f"blocks processed inside the line loop: {len(inside)}, after it: {len(after)} - the last component of a document is dropped", loc(fe))
+    sc = p.func("Operation.strip_comments")
+    check.analysed(sc)
+    src_ok = any(isinstance(x, ast.Call) and isinstance(x.func, ast.Attribute) and x.func.attr == "find" for x in ast.walk(sc.node))
+    dflt = [q.default for q in sc.params if q.name == "delimiter"]
+    ok = src_ok and bool(dflt) and isinstance(dflt[0], ast.Constant) and dflt[0].value == "#"
+    check.require(ok, "T13", "Operation.strip_comments/hash", "text after `#` is a comment", loc(sc))
 
 
 # ------------------------------------------------------------------------------------------------ corpus (thorough)
